@@ -199,6 +199,33 @@ func usable[T comparable](l *dt.List[T], w []T, extra T) string {
 	if !done || !done2 || !eq(values(fw), model) || len(bw) != len(model) || l.Len() != len(model) {
 		return fmt.Sprintf("after PushBack/PopFront/PopBack: forward walk %v, backward walk %v, Len()=%d, expected %v", values(fw), values(bw), l.Len(), model)
 	}
+	// insertion at the front (goes through the root sentinel)
+	l.PushFront(extra)
+	model = append([]T{extra}, model...)
+	if fw, done := walk(l, len(model), false); !done || !eq(values(fw), model) || l.Len() != len(model) || !l.Front().In(l) {
+		return fmt.Sprintf("after PushFront(%v): forward walk %v, Len()=%d, Front().In(list)=%v, expected %v", extra, values(fw), l.Len(), l.Front().In(l), model)
+	}
+	if e := l.PopFront(); !e.Ok() || e.Value() != extra || e.In(l) {
+		return fmt.Sprintf("PopFront() after PushFront(%v) returned Ok=%v value=%v In=%v", extra, e.Ok(), e.Value(), e.In(l))
+	}
+	model = model[1:]
+	// drain completely, then reuse the emptied list
+	for i := range model {
+		if e := l.PopFront(); !e.Ok() || e.Value() != model[i] {
+			return fmt.Sprintf("draining: PopFront() #%d returned Ok=%v value=%v, expected %v", i+1, e.Ok(), e.Value(), model[i])
+		}
+	}
+	if l.Len() != 0 || l.Front().Ok() || l.Back().Ok() {
+		return fmt.Sprintf("after draining: Len()=%d Front().Ok()=%v Back().Ok()=%v", l.Len(), l.Front().Ok(), l.Back().Ok())
+	}
+	l.PushBack(extra)
+	l.PushFront(extra)
+	if fw, done := walk(l, 2, false); !done || len(fw) != 2 || l.Len() != 2 || !l.Front().In(l) || !l.Back().In(l) {
+		return fmt.Sprintf("refilling the drained list: forward walk %v (ended=%v), Len()=%d, Front().In=%v Back().In=%v, expected two elements", values(fw), done, l.Len(), l.Front().In(l), l.Back().In(l))
+	}
+	if e := l.PopBack(); !e.Ok() || e.Value() != extra {
+		return fmt.Sprintf("PopBack() on the refilled list returned Ok=%v value=%v", e.Ok(), e.Value())
+	}
 	return ""
 }
 
